@@ -20,7 +20,7 @@ def one_walk(tt, torch, rng, steps):
     objs.append(rnd_tt(N)); objs.append(rnd_tt(N, 1)); objs.append(rnd_ttm(N))
     for _ in range(steps):
         op = rng.choice(["add", "sub", "mul", "neg", "round", "round_rmax", "reshape", "permute", "index", "sum", "cat", "pad", "matvec", "kron",
-                         "set_core", "reduce_dims", "to_ttm", "diag", "clone", "scal", "adds", "div_s", "norm", "full", "t", "conj", "hadamard",
+                         "set_core", "set_core_neg", "reduce_dims", "to_ttm", "diag", "clone", "scal", "adds", "div_s", "norm", "full", "t", "conj", "hadamard",
                          "fast_matvec", "amen_mv", "div", "dot_axes", "mprod", "to_qtt"])
         tens = [o for o in objs if not o.is_ttm]
         mats = [o for o in objs if o.is_ttm]
@@ -49,6 +49,9 @@ def one_walk(tt, torch, rng, steps):
             elif op == "set_core":
                 c = x.cores[0]
                 x.set_core(0, torch.randn(c.shape[0], c.shape[1] + rng.choice([0, 1]) if c.shape[1] < 5 else c.shape[1], c.shape[2], dtype=dt)); out = None
+            elif op == "set_core_neg":        # not a position: must be rejected and leave the object as it was
+                cl = x.cores[-1]
+                x.set_core(-1, torch.randn(1, cl.shape[1], 1, dtype=dt)); out = None
             elif op == "reduce_dims": x.reduce_dims(); out = None
             elif op == "to_ttm": out = x.to_ttm()
             elif op == "diag": out = tt.diag(x) if int(np.prod(x.N)) <= 16 else x.clone()
